@@ -486,6 +486,8 @@ class SimEnv:
         except SimDeadlock as e:
             status, val = "hang", "deadlock: " + str(e)
         except BaseException as e:  # noqa: BLE001
+            if type(e).__name__ == "WallTimeout":
+                raise
             status = "exc"
             val = {
                 "type": type(e).__name__,
@@ -545,6 +547,8 @@ def run_budgeted(fn, max_calls=3_000_000, prefix="/repo/pydra/"):
     except StepBudgetExceeded as e:
         return "hang", str(e)
     except BaseException as e:  # noqa: BLE001
+        if type(e).__name__ == "WallTimeout":
+            raise
         return "exc", {"type": type(e).__name__, "msg": str(e), "notes": list(getattr(e, "__notes__", [])), "tb": traceback.format_exc()[-3000:]}
     finally:
         import gc
